@@ -300,6 +300,156 @@ example : runModule pyIntOfStr conversions "convertToIntRangeCapped"
     = .ok (.py (.int 1000)) := by
   rfl
 
+/-! ## constants.py: the `_special_value_*` helpers (the dump `Gen.Code.constants`, run after conversions.py)
+
+The hand model does not model these functions one by one: `translate_props.py` recognises their SHAPE and turns each into a
+`Gen.Rule`, which `Conv.evalRule` interprets.  The theorems say that the code itself, run on an element, gives what
+`evalRule` gives for the generated rule of that dot name — for every element (the element's own methods `tagName`,
+`getAttribute`, `hasAttribute` being the hand model's).  They check the shape recognition of the table translator against
+the code, for all elements.  The proofs name the literal arguments of today's source: an edit of a literal in the source
+changes table and dump alike and breaks them (as it breaks the C19c table obligations). -/
+
+theorem special_value_rows_code_eq_model (parseInt : Str → Except PyErr Int) (hpi : ValueErrorOnly parseInt) (e : Elem)
+    (r : Rule) (hr : Gen.specialRules.lookup "rows" = some r) :
+    runModule parseInt constants_scope "_special_value_rows" [.elem e] = liftPy (evalRule genTables parseInt e r) := by
+  have hr' : r = (.byTag "textarea" (.conv (.intRange (some 1) none (.val (.int 2)) .invalid) "rows" (.int 2))
+      (.conv .raw "rows" (.str ""))) := by
+    have : Gen.specialRules.lookup "rows" = some (.byTag "textarea"
+        (.conv (.intRange (some 1) none (.val (.int 2)) .invalid) "rows" (.int 2)) (.conv .raw "rows" (.str ""))) := rfl
+    rw [this] at hr; exact (Option.some.inj hr).symm
+  subst hr'
+  have h1 := fun v => convertToIntRange_code_eq_model parseInt hpi v (some 1) none (.val (.int 2)) .invalid
+  simp only [link_7, ofOptInt, ofInv, ofEmp, Lit.toPy] at h1
+  simp only [linkC_1, run, runKw, _special_value_rows_ast, evalRule, evalConv]
+  by_cases ht : e.tag = "textarea"
+  · py_eval [ht, getAttr, cxC_intRange, intRange_kw, h1]
+    generalize liftPy _ = res
+    cases res <;> rfl
+  · have ht' : e.tag.toList ≠ ['t', 'e', 'x', 't', 'a', 'r', 'e', 'a'] :=
+      fun h => ht ((toList_eq_iff e.tag "textarea").mp h)
+    py_eval [ht, ht', getAttr, liftPy]
+
+theorem special_value_cols_code_eq_model (parseInt : Str → Except PyErr Int) (hpi : ValueErrorOnly parseInt) (e : Elem)
+    (r : Rule) (hr : Gen.specialRules.lookup "cols" = some r) :
+    runModule parseInt constants_scope "_special_value_cols" [.elem e] = liftPy (evalRule genTables parseInt e r) := by
+  have hr' : r = (.byTag "textarea" (.conv (.intRange (some 1) none (.val (.int 20)) .invalid) "cols" (.int 20))
+      (.conv .raw "cols" (.str ""))) := by
+    have : Gen.specialRules.lookup "cols" = some (.byTag "textarea"
+        (.conv (.intRange (some 1) none (.val (.int 20)) .invalid) "cols" (.int 20)) (.conv .raw "cols" (.str ""))) := rfl
+    rw [this] at hr; exact (Option.some.inj hr).symm
+  subst hr'
+  have h1 := fun v => convertToIntRange_code_eq_model parseInt hpi v (some 1) none (.val (.int 20)) .invalid
+  simp only [link_7, ofOptInt, ofInv, ofEmp, Lit.toPy] at h1
+  simp only [linkC_2, run, runKw, _special_value_cols_ast, evalRule, evalConv]
+  by_cases ht : e.tag = "textarea"
+  · py_eval [ht, getAttr, cxC_intRange, intRange_kw, h1]
+    generalize liftPy _ = res
+    cases res <;> rfl
+  · have ht' : e.tag.toList ≠ ['t', 'e', 'x', 't', 'a', 'r', 'e', 'a'] :=
+      fun h => ht ((toList_eq_iff e.tag "textarea").mp h)
+    py_eval [ht, ht', getAttr, liftPy]
+
+theorem special_value_autocomplete_code_eq_model (parseInt : Str → Except PyErr Int) (e : Elem)
+    (r : Rule) (hr : Gen.specialRules.lookup "autocomplete" = some r) :
+    runModule parseInt constants_scope "_special_value_autocomplete" [.elem e]
+      = liftPy (evalRule genTables parseInt e r) := by
+  have hr' : r = (.byTag "form" (.conv (.possible ["on", "off"] (.val (.str "on")) .invalid) "autocomplete" (.str "on"))
+      (.conv (.possible ["on", "off"] (.val (.str "")) (.val (.str ""))) "autocomplete" (.str ""))) := by
+    have : Gen.specialRules.lookup "autocomplete" = some (.byTag "form"
+        (.conv (.possible ["on", "off"] (.val (.str "on")) .invalid) "autocomplete" (.str "on"))
+        (.conv (.possible ["on", "off"] (.val (.str "")) (.val (.str ""))) "autocomplete" (.str ""))) := rfl
+    rw [this] at hr; exact (Option.some.inj hr).symm
+  subst hr'
+  have h1 := fun v => convertPossibleValues_code_eq_model parseInt v ["on", "off"] (.val (.str "on")) .invalid
+  have h2 := fun v => convertPossibleValues_code_eq_model parseInt v ["on", "off"] (.val (.str "")) (.val (.str ""))
+  simp [link_6, ofMembers, ofInv, ofEmp, Lit.toPy] at h1 h2
+  simp only [linkC_3, run, runKw, _special_value_autocomplete_ast, evalRule, evalConv]
+  by_cases ht : e.tag = "form"
+  · py_eval [ht, getAttr, cxC_possible, possible_kw, h1]
+    generalize liftPy _ = res
+    cases res <;> rfl
+  · have ht' : e.tag.toList ≠ ['f', 'o', 'r', 'm'] := fun h => ht ((toList_eq_iff e.tag "form").mp h)
+    py_eval [ht, ht', getAttr, cxC_possible, possible_kw, h2]
+    generalize liftPy _ = res
+    cases res <;> rfl
+
+theorem special_value_size_code_eq_model (parseInt : Str → Except PyErr Int) (e : Elem)
+    (r : Rule) (hr : Gen.specialRules.lookup "size" = some r) :
+    runModule parseInt constants_scope "_special_value_size" [.elem e] = liftPy (evalRule genTables parseInt e r) := by
+  have hr' : r = (.byTag "input" (.conv (.positiveInt (.int 20)) "size" (.int 20)) (.conv .raw "size" (.str ""))) := by
+    have : Gen.specialRules.lookup "size" = some (.byTag "input" (.conv (.positiveInt (.int 20)) "size" (.int 20))
+        (.conv .raw "size" (.str ""))) := rfl
+    rw [this] at hr; exact (Option.some.inj hr).symm
+  subst hr'
+  have h1 := fun v => convertToPositiveInt_code_eq_model parseInt v (.int 20)
+  simp only [link_4, Lit.toPy] at h1
+  simp only [linkC_4, run, runKw, _special_value_size_ast, evalRule, evalConv]
+  by_cases ht : e.tag = "input"
+  · py_eval [ht, getAttr, cxC_positiveInt, positiveInt_kw, h1, liftPy]
+  · have ht' : e.tag.toList ≠ ['i', 'n', 'p', 'u', 't'] := fun h => ht ((toList_eq_iff e.tag "input").mp h)
+    py_eval [ht, ht', getAttr, liftPy]
+
+/-- `_special_value_maxLength(em)` — reading. -/
+theorem special_value_maxLength_code_eq_model (parseInt : Str → Except PyErr Int) (hpi : ValueErrorOnly parseInt) (e : Elem)
+    (r : Rule) (hr : Gen.specialRules.lookup "maxLength" = some r) :
+    runModule parseInt constants_scope "_special_value_maxLength" [.elem e] = liftPy (evalRule genTables parseInt e r) := by
+  have hr' : r = (.maxLength "maxlength" (.int (-1)) (.str "-1") (some 0) none (.val (.int 0)) (.val (.int (-1)))
+      (.raise "IndexSizeErrorException")) := by
+    have : Gen.specialRules.lookup "maxLength" = some (.maxLength "maxlength" (.int (-1)) (.str "-1") (some 0) none
+        (.val (.int 0)) (.val (.int (-1))) (.raise "IndexSizeErrorException")) := rfl
+    rw [this] at hr; exact (Option.some.inj hr).symm
+  subst hr'
+  have h1 := fun v => convertToIntRange_code_eq_model parseInt hpi v (some 0) none (.val (.int (-1))) (.val (.int 0))
+  simp only [link_7, ofOptInt, ofInv, ofEmp, Lit.toPy] at h1
+  simp only [linkC_5, run, runKw, _special_value_maxLength_ast, evalRule]
+  by_cases ha : e.hasAttribute "maxlength" = true
+  · py_eval [ha, cxC_intRange, intRange_kw', h1]
+    generalize liftPy _ = res
+    cases res <;> rfl
+  · py_eval [ha, liftPy]
+
+/-- `_special_value_maxLength(em, newValue)` — the validation run before an assignment. -/
+theorem special_value_maxLength_validate_code_eq_model (parseInt : Str → Except PyErr Int) (hpi : ValueErrorOnly parseInt)
+    (e : Elem) (v : PyV) (r : Rule) (hr : Gen.validatedProps.lookup "maxLength" = some r) :
+    (match runModule parseInt constants_scope "_special_value_maxLength" [.elem e, .py v] with
+      | .ok _ => .ok () | .error err => .error err) = validateRule parseInt v r := by
+  have hr' : r = (.maxLength "maxlength" (.int (-1)) (.str "-1") (some 0) none (.val (.int 0)) (.val (.int (-1)))
+      (.raise "IndexSizeErrorException")) := by
+    have : Gen.validatedProps.lookup "maxLength" = some (.maxLength "maxlength" (.int (-1)) (.str "-1") (some 0) none
+        (.val (.int 0)) (.val (.int (-1))) (.raise "IndexSizeErrorException")) := rfl
+    rw [this] at hr; exact (Option.some.inj hr).symm
+  subst hr'
+  have h1 := convertToIntRange_code_eq_model parseInt hpi v (some 0) none (.raise "IndexSizeErrorException") (.val (.int 0))
+  simp only [link_7, ofOptInt, ofInv, ofEmp, Lit.toPy] at h1
+  simp only [linkC_5, run, runKw, _special_value_maxLength_ast, validateRule]
+  py_eval [cxC_intRange, intRange_kw', h1]
+  generalize convertToIntRange _ _ _ _ _ _ = res
+  cases res <;> rfl
+
+/-! non-vacuity: the generated rules exist, and concrete elements run through the dumped helpers -/
+
+example : (∃ r, Gen.specialRules.lookup "rows" = some r) ∧ (∃ r, Gen.specialRules.lookup "cols" = some r)
+    ∧ (∃ r, Gen.specialRules.lookup "autocomplete" = some r) ∧ (∃ r, Gen.specialRules.lookup "size" = some r)
+    ∧ (∃ r, Gen.specialRules.lookup "maxLength" = some r) ∧ (∃ r, Gen.validatedProps.lookup "maxLength" = some r) :=
+  ⟨⟨_, rfl⟩, ⟨_, rfl⟩, ⟨_, rfl⟩, ⟨_, rfl⟩, ⟨_, rfl⟩, ⟨_, rfl⟩⟩
+
+private def ta : Elem := { Elem.new "textarea" with attrs := [("rows", some "7".toList)] }
+example : runModule pyIntOfStr constants_scope "_special_value_rows" [.elem ta] = .ok (.py (.int 7)) := by rfl
+example : runModule pyIntOfStr constants_scope "_special_value_rows"
+    [.elem { ta with attrs := [("rows", some "0".toList)] }] = .ok (.py (.int 2)) := by rfl
+example : runModule pyIntOfStr constants_scope "_special_value_rows" [.elem { ta with tag := "frameset" }]
+    = .ok (.py (.str "7".toList)) := by rfl
+example : runModule pyIntOfStr constants_scope "_special_value_autocomplete"
+    [.elem { Elem.new "form" with attrs := [("autocomplete", some "OFF".toList)] }] = .ok (.py (.str "off".toList)) := by rfl
+example : runModule pyIntOfStr constants_scope "_special_value_size"
+    [.elem { Elem.new "input" with attrs := [("size", some "-4".toList)] }] = .ok (.py (.int 20)) := by rfl
+example : runModule pyIntOfStr constants_scope "_special_value_maxLength" [.elem (Elem.new "input")]
+    = .ok (.py (.int (-1))) := by rfl
+example : runModule pyIntOfStr constants_scope "_special_value_maxLength"
+    [.elem { Elem.new "input" with attrs := [("maxlength", some "12".toList)] }] = .ok (.py (.int 12)) := by rfl
+example : runModule pyIntOfStr constants_scope "_special_value_maxLength" [.elem (Elem.new "input"), .py (.str "-1".toList)]
+    = .error .indexSizeError := by rfl
+
 /-! ## utils.escapeQuotes / unescapeQuotes (the dump `Gen.Code.utils`) -/
 
 /-- `escapeQuotes(s)` on a text is the hand model of the serialisers (`Fmt.escapeQuotes`, the formatter's copy). -/
